@@ -278,4 +278,4 @@ def run(ctx) -> None:
                    "2 name styles x 6x6 declaration forms x 6 arrow forms x 3x3 reference forms x declaration before/after use, plus a second arrow referring to the dependor in another form")
     ctx.exhaustive("alias-token-reused-as-component-in-next-diagram", MOD, "seq_shard", [(i, 8) for i in range(8)],
                    "2 alias declaration forms x 4 declaration forms x 2 reference forms x 6 arrow forms x both orders, three parses per case")
-    ctx.random("random-diagrams", MOD, "strategy", "check_case", 6000 if ctx.tier == "quick" else 150000)
+    ctx.random("random-diagrams", MOD, "strategy", "check_case", 6000 if ctx.tier == "quick" else 400000)
